@@ -277,6 +277,8 @@ func checkC28(w *World, r *Run) {
 	checkC28Middleware(w, r, ruleMw)
 	checkC28Headers(w, r, ruleHeaders)
 	checkC28PayloadHash(w, r)
+	ruleCanon28 := r.Rule("canonical-header-value-covers-every-field-line", "F9", "collectSignedHeaders joins all values of a signed header with a comma; no header value is taken with Header.Get (first line only)", 1)
+	checkCanonicalHeaderValues(w, r, ruleCanon28)
 	r.NotCovered("injectivity of the canonicalisation (two different requests with one canonical form); HMAC/ECDSA arithmetic; the chunk-signature chain of streaming uploads (C30)")
 	_ = types.Universe
 	_ = strings.ToLower
